@@ -2,8 +2,10 @@ package hx
 
 import (
 	"bytes"
+	"encoding/binary"
 	"errors"
 	"fmt"
+	"hash/crc32"
 	"io"
 	"math/rand"
 	"os"
@@ -62,8 +64,93 @@ func RunSpecial(prop, tier string, seed int64, tmp string) *Special {
 		return specialC09(seed, thorough)
 	case "C06", "C07":
 		return specialLarge(prop, seed, thorough)
+	case "C11", "C04":
+		return specialSizes(prop, seed, thorough)
 	}
 	return nil
+}
+
+// ---------------------------------------------------------------------------
+// C11 / C04: data sections whose length is exactly a power of two (or a
+// multiple of one): block-wise copying code is most likely to go wrong there.
+// One incompressible stored value is tuned until the data section has exactly
+// the wanted length; the segment is then persisted (built, and loaded from
+// memory and from a file), and the byte count, the trailing CRC-32 and the
+// identity of the re-persisted file are checked.
+// ---------------------------------------------------------------------------
+func specialSizes(prop string, seed int64, thorough bool) *Special {
+	sp := &Special{Extra: map[string]interface{}{}}
+	g := NewGen(seed*2654435 + 11)
+	targets := []int{4096, 32768, 65536}
+	if thorough {
+		targets = []int{512, 1024, 4096, 8192, 16384, 32768, 65536, 98304, 131072, 1 << 20}
+	}
+	sp.Rule = fmt.Sprintf("segments whose data section (file without the 44-byte footer) is exactly %v bytes long (one incompressible stored value tuned to it), and one byte shorter and longer: persisted from the built segment and from copies loaded from memory and from a file; WriteTo's count, the trailing CRC-32 over all preceding bytes, and byte identity of every re-persisted copy; non-trivial = the exact size was reached", targets)
+	hit := 0
+	for _, target := range targets {
+		for _, delta := range []int{0, -1, 1} {
+			want := target + delta
+			vlen := want - 60
+			var file []byte
+			var seg segment.Segment
+			for try := 0; try < 12; try++ {
+				val := make([]byte, vlen)
+				for i := range val {
+					val[i] = byte(g.R.Intn(256))
+				}
+				b := Batch{{idField("a", true), Field{N: "body", St: true, Val: val}}}
+				var err error
+				file, seg, err = buildBytes(Current, b, 1025)
+				if err != nil {
+					sp.failf(nil, "build failed: %v", err)
+					return sp
+				}
+				if len(file)-44 == want {
+					break
+				}
+				vlen += want - (len(file) - 44)
+			}
+			in := map[string]interface{}{"seed": seed, "data_section_bytes": want, "reached": len(file) - 44}
+			sp.Evaluations++
+			sp.Distinct++
+			if len(file)-44 == want {
+				hit++
+				sp.Nontrivial++
+			}
+			check := func(kind string, sg segment.Segment) {
+				var out bytes.Buffer
+				var n int64
+				var err error
+				_, p := safely(func() error { n, err = sg.WriteTo(&out, nil); return nil })
+				switch {
+				case p != nil || err != nil:
+					sp.failf(in, "%s segment: WriteTo failed: err=%v panic=%v", kind, err, p)
+				case int(n) != out.Len():
+					sp.failf(in, "%s segment with a data section of %d bytes: WriteTo returned %d but wrote %d bytes", kind, len(file)-44, n, out.Len())
+				case !bytes.Equal(out.Bytes(), file):
+					sp.failf(in, "%s segment with a data section of %d bytes: the persisted bytes differ from the first persist (first difference at %d, %d and %d bytes)", kind, len(file)-44, firstDiffBytes(out.Bytes(), file), out.Len(), len(file))
+				default:
+					o := out.Bytes()
+					if crc32.ChecksumIEEE(o[:len(o)-4]) != binary.BigEndian.Uint32(o[len(o)-4:]) {
+						sp.failf(in, "%s segment: the trailing CRC-32 does not cover the preceding bytes", kind)
+					}
+				}
+			}
+			check("built", seg)
+			if l, err := Current.Load(segment.NewDataBytes(file)); err == nil {
+				check("memory-loaded", l)
+			} else {
+				sp.failf(in, "load failed: %v", err)
+			}
+			if l, err := Current.Load(segment.NewDataReaderAt(&faultyReader{b: file, failFrom: -1}, len(file))); err == nil {
+				check("file-loaded", l)
+			} else {
+				sp.failf(in, "load behind a reader failed: %v", err)
+			}
+		}
+	}
+	sp.Extra["exact_sizes_reached"] = hit
+	return sp
 }
 
 // ---------------------------------------------------------------------------
@@ -919,6 +1006,83 @@ func specialC14(seed int64, thorough bool) *Special {
 			}
 		}
 	}
+	// wide vocabularies: a batch with 6,000 distinct terms, then one with 5,100 other terms whose
+	// documents differ, compared with its cold-start bytes
+	if nt > 0 {
+		wide := func(prefix string, terms, docs int) Batch {
+			var b Batch
+			for d := 0; d < docs; d++ {
+				body := Field{N: "body"}
+				for t := d; t < terms; t += docs {
+					body.Terms = append(body.Terms, Term{T: []byte(fmt.Sprintf("%s%05d", prefix, t)), Freq: 1})
+					body.Len++
+				}
+				b = append(b, Doc{idField(fmt.Sprintf("%s%d", prefix, d), false), body})
+			}
+			return b
+		}
+		target := wide("w", 5100, 7)
+		dropPool()
+		cold, _, err := buildBytes(Current, target, 1025)
+		if err == nil {
+			dropPool()
+			in := c14Input{Seed: seed, Target: -2, History: "wide(6000 terms over 11 documents)", CM: 1025, NDocs: len(target)}
+			if e, pan := safeNew(wide("v", 6000, 11), HarnessNorm, 1025); e != nil || pan != nil {
+				sp.failf(in, "wide build failed: err=%v panic=%v", e, pan)
+			}
+			used := Current.PoolProbe()
+			warm, _, e := buildBytes(Current, target, 1025)
+			sp.Evaluations++
+			sp.Distinct++
+			if used {
+				recycled++
+				sp.Nontrivial++
+			}
+			if e != nil {
+				sp.failf(in, "build after the wide batch failed although the same batch builds from a cold pool: %v", e)
+			} else if !bytes.Equal(cold, warm) {
+				sp.failf(in, "bytes after the wide batch differ from the cold-start bytes (first difference at offset %d)", firstDiffBytes(cold, warm))
+			}
+		}
+	}
+	// no norm function at all: whatever New does with a nil norm function (today: it panics
+	// when the first field is processed) must not depend on what was built before
+	if nt > 0 {
+		nb := g.Batch(BatchOpts{NDocs: 4})
+		outcome := func() string {
+			var file []byte
+			err, pan := safely(func() error {
+				seg, _, err := Current.New(nb.Documents(), nil, 1025)
+				if err != nil {
+					return err
+				}
+				var buf bytes.Buffer
+				_, err = seg.WriteTo(&buf, nil)
+				file = buf.Bytes()
+				return err
+			})
+			if pan != nil {
+				return "panic"
+			}
+			if err != nil {
+				return "error"
+			}
+			return fmt.Sprintf("bytes:%x", file)
+		}
+		dropPool()
+		cold := outcome()
+		for k, norm := range []func(string, int) float32{HarnessNorm, func(f string, l int) float32 { return HarnessNorm(f+"#", l+7) }} {
+			dropPool()
+			safeNew(g.Batch(BatchOpts{NDocs: 5}), norm, 1025)
+			warm := outcome()
+			sp.Evaluations++
+			sp.Distinct++
+			if warm != cold {
+				sp.failf(c14Input{Seed: seed, Target: -3, History: fmt.Sprintf("b(5 docs, norm function %d), then New with a nil norm function", k), CM: 1025, NDocs: len(nb)},
+					"New with a nil norm function behaves differently after a build with a norm function than from a cold pool (%.20s... vs %.20s...)", warm, cold)
+			}
+		}
+	}
 	// concurrent builders
 	type job struct {
 		b    Batch
@@ -1353,7 +1517,28 @@ func bigImmut(sp *Special, g *Gen, seed int64, rounds int, tmp string) {
 			}
 			return out
 		}
+		// the small segment's doc values, read with fresh readers
+		smallScript := func() (out W) {
+			defer func() {
+				if p := recover(); p != nil {
+					out = append(out, 999999, 999999)
+				}
+			}()
+			rd, err := sseg.DocumentValueReader(sseg.Fields())
+			if err != nil {
+				return W{888888}
+			}
+			for d := uint64(0); d < sseg.Count(); d++ {
+				err := rd.VisitDocumentValues(d, func(f string, t []byte) {
+					out.Str(f)
+					out.Bytes(t)
+				})
+				out.Bool(err != nil)
+			}
+			return out
+		}
 		base := script()
+		sbase := smallScript()
 		drops := bitmapOf(g.subset(n, 9))
 		steps := []struct {
 			name string
@@ -1383,6 +1568,11 @@ func bigImmut(sp *Special, g *Gen, seed int64, rounds int, tmp string) {
 			if !eqW(now, base) {
 				sp.failf(map[string]interface{}{"seed": seed, "exploration": "big-immut", "round": r, "ndocs": n, "ops": append([]string(nil), hist...), "first_difference_at": firstDiff(now, base)},
 					"after %q the read script (two doc-value readers and two iterators used alternately across chunks) of a %d-document segment answers differently than before", st.name, n)
+				break
+			}
+			if snow := smallScript(); !eqW(snow, sbase) {
+				sp.failf(map[string]interface{}{"seed": seed, "exploration": "big-immut", "round": r, "ndocs": n, "ops": append([]string(nil), hist...)},
+					"after %q the doc values of the SMALL segment that was merged together with the %d-document segment read differently than before", st.name, n)
 				break
 			}
 			sp.Evaluations++
